@@ -272,6 +272,9 @@ def run_shard(acc, prop, tier, seed, shard, nshards, **kw):
     try:
         n = 3 if tier == "quick" else 120
         for wi in range(n):
+            from .. import core as _core
+            if _core.skip_world(wi):
+                continue
             run_world(acc, srv, (seed, PROP, tier, shard, wi))
         # canary: an unauthorised success must be flagged
         from ..core import Acc
